@@ -67,4 +67,32 @@ PROPS = {
         "trusted": [SHA],
         "assumptions": ["the crypto object handed out is compared only through the proof/accept decision here; its behaviour is C07-C10"],
     },
+    "C03": {
+        "prop_files": ["props/C03.v"],
+        "consts": ["n_le", "generator", "k_value", "xor_hash", "s_length", "session_key_length", "public_key_length"],
+        "runner": "run_C03",
+        "byte_exact": True,
+        "rule": "through the Coq model: calculate_interleaved (hook) on secrets with every count 0..32 of low-order zero bytes (and an interior zero), verifier via the public API with injected salt, server public key and S (hooks) incl. unreduced stored verifiers, client S / client public key / the public client API under announced groups g in {2,3,5,7,11,255} x N' in {N, 3, 5, 7, 251, 65537, 2^31-1, random 64/128/255-bit primes, largest 256-bit prime}; implementation-only oracle: textbook WoW-SRP6 values recomputed independently (num-bigint + sha1 used directly) for thousands of sessions through the public API and for announced groups.",
+        "trusted": [SHA, "num-bigint primitives as modelled in model/Bigint.v"],
+        "assumptions": ["degenerate exchanges with S = 0 are covered by the zero-secret corollary and C14", "usernames/passwords enter the model as their normalised text (C13)"],
+    },
+    "C02": {
+        "prop_files": ["props/C02.v"],
+        "extra_files": ["proofs/SrpBatch.v"],
+        "consts": ["n_le", "generator", "k_value", "xor_hash", "proof_length", "session_key_length", "reconnect_challenge_data_length"],
+        "runner": "run_C02",
+        "byte_exact": False,
+        "rule": "baseline sessions (tape-injected salt, b, a) through the public API; per session, compared with the Coq model: the accepted M1 plus single-bit flips of M1 in one batched server case (all 160 in thorough), the accepted M2 plus flips on the client, A with one bit changed, and client proofs computed with a changed salt bit, B bit, other password, other username (all must be refused with payload (presented, expected)) and a case-only change (must be accepted); implementation-only oracle: all 160 flips of M1 and M2 and random A/B/salt/credential changes on hundreds of sessions.",
+        "trusted": [SHA, "num-bigint primitives as modelled in model/Bigint.v"],
+        "assumptions": ["'a different field is refused' is proved in collision form (C02_binding): acceptance with a differing field exhibits two different byte strings with equal SHA-1"],
+    },
+    "C05": {
+        "prop_files": ["props/C05.v"],
+        "consts": ["reconnect_challenge_data_length", "proof_length", "session_key_length"],
+        "runner": "run_C05",
+        "byte_exact": False,
+        "rule": "random histories (1..40 attempts quick, ..400 thorough) on logged-in servers drawn from {correct for the current challenge, replay of any earlier pair, proof for a stale challenge, wrong session key, wrong username, single-bit change of proof or client data}, every new server challenge injected through the RNG tape so the model predicts verdicts and challenges byte for byte; client reconnect values with injected challenge; implementation-only oracle: long histories with injected and with real randomness (verdict = proof equality, challenge replaced after every attempt, replays refused, legitimate client accepted).",
+        "trusted": [SHA],
+        "assumptions": ["a replay is refused unless two challenges coincide or SHA-1 collides (C05_replay); distinctness of challenges is the RNG's job (C15)", "the server state (user, K, challenge) is read through the public accessors after a real login"],
+    },
 }
